@@ -535,19 +535,29 @@ func (prog Progress) walk_transform_iterateList(n datamodel.Node, s selector.Sel
 					lnk, _ := v.AsLink()
 					if prog.Cfg.LinkVisitOnlyOnce {
 						if _, seen := prog.SeenLinks[lnk]; seen {
+							// Already visited: not descending, so the link stays in place unchanged,
+							// like every other element that is not explored.
+							if err := lstBldr.AssembleValue().AssignNode(v); err != nil {
+								return nil, err
+							}
 							continue
 						}
 						prog.SeenLinks[lnk] = struct{}{}
 					}
 					progNext.LastBlock.Path = progNext.Path
 					progNext.LastBlock.Link = lnk
-					v, err = progNext.loadLink(lnk, v, n)
+					loaded, err := progNext.loadLink(lnk, v, n)
 					if err != nil {
 						if _, ok := err.(SkipMe); ok {
+							// The loader asked to skip this block: the link stays in place unchanged.
+							if err := lstBldr.AssembleValue().AssignNode(v); err != nil {
+								return nil, err
+							}
 							continue
 						}
 						return nil, err
 					}
+					v = loaded
 				}
 
 				next, err := progNext.WalkTransforming(v, sNext, fn)
@@ -602,19 +612,29 @@ func (prog Progress) walk_transform_iterateMap(n datamodel.Node, s selector.Sele
 					lnk, _ := v.AsLink()
 					if prog.Cfg.LinkVisitOnlyOnce {
 						if _, seen := prog.SeenLinks[lnk]; seen {
+							// Already visited: not descending, so the link stays in place unchanged,
+							// like every other entry that is not explored.
+							if err := mapBldr.AssembleValue().AssignNode(v); err != nil {
+								return nil, err
+							}
 							continue
 						}
 						prog.SeenLinks[lnk] = struct{}{}
 					}
 					progNext.LastBlock.Path = progNext.Path
 					progNext.LastBlock.Link = lnk
-					v, err = progNext.loadLink(lnk, v, n)
+					loaded, err := progNext.loadLink(lnk, v, n)
 					if err != nil {
 						if _, ok := err.(SkipMe); ok {
+							// The loader asked to skip this block: the link stays in place unchanged.
+							if err := mapBldr.AssembleValue().AssignNode(v); err != nil {
+								return nil, err
+							}
 							continue
 						}
 						return nil, err
 					}
+					v = loaded
 				}
 
 				next, err := progNext.WalkTransforming(v, sNext, fn)
